@@ -124,8 +124,8 @@ func checkNoDuplicateKeys(eventJSON []byte) error {
 }
 
 // checkContentKeys returns an error if the content of an event whose type the
-// authorisation rules look into has a key, at any depth, that differs from one of the keys
-// decoded for that type only in letter case. encoding/json would read it as that key:
+// authorisation rules look into repeats a key, or has a key, at any depth, that differs
+// from one of the keys decoded for that type only in letter case. encoding/json would read it as that key:
 // {"membership": "join", "member\u017fhip": "ban"} is a ban to this library and a join to
 // everyone else, and the "u\u017fers" of a power levels event are merged into its "users".
 func checkContentKeys(eventJSON []byte) error {
@@ -140,8 +140,17 @@ func checkContentKeys(eventJSON []byte) error {
 func checkObjectKeys(value gjson.Result, fields []string) error {
 	var err error
 	isObject := value.IsObject()
+	seen := map[string]struct{}{}
 	value.ForEach(func(key, child gjson.Result) bool {
 		if isObject {
+			// Which of two equal keys counts differs between the decoders in use: the signature
+			// checks would read the first "join_authorised_via_users_server", the authorisation
+			// rules the last.
+			if _, ok := seen[key.String()]; ok {
+				err = fmt.Errorf("gomatrixserverlib: duplicate key %q in event content", key.String())
+				return false
+			}
+			seen[key.String()] = struct{}{}
 			for _, field := range fields {
 				if key.String() != field && strings.EqualFold(key.String(), field) {
 					err = fmt.Errorf("gomatrixserverlib: key %q in event content is ambiguous with %q", key.String(), field)
@@ -150,8 +159,12 @@ func checkObjectKeys(value gjson.Result, fields []string) error {
 			}
 			switch key.String() {
 			case "users", "events", "notifications", "signatures":
-				// These are keyed by user IDs, event types and server names.
-				return true
+				// These are keyed by user IDs, event types and server names: no key in
+				// them is ambiguous with a field, but none may be repeated either.
+				if child.IsObject() {
+					err = checkObjectKeys(child, nil)
+				}
+				return err == nil
 			}
 		}
 		if child.IsObject() || child.IsArray() {
